@@ -206,6 +206,11 @@ func (h *rtHist) mkNode(rel string, kind byte) *rtNode {
 		n.Target = h.target(rel)
 	case 'c', 'b':
 		n.Maj, n.Min = uint32(r.intn(3)), uint32(1+r.intn(4))
+		if r.chance(1, 3) {
+			// numbers beyond the 8-bit halves of the old device encoding
+			n.Maj = rtPickU32(r, []uint32{1, 8, 255, 259, 4000})
+			n.Min = rtPickU32(r, []uint32{255, 256, 1000, 65535, 1048000})
+		}
 	}
 	n.Ino = h.newIno()
 	n.Perm = 0o644
